@@ -6,7 +6,6 @@ import numpy as np
 
 from .core import SimBudget, digest_arrays, digest_field, tol, ulp
 
-GUARD_ULPS = 16
 
 
 def feq(a, b):
@@ -86,16 +85,6 @@ def _unexpected_exception(r):
     if r.exc_injected:
         return None
     return "%s: %s" % (type(r.exc).__name__, r.exc)
-
-
-def _from_harness(r):
-    """Did the exception originate in /verif code rather than in flowdyn/numpy?"""
-    tb = r.exc_tb or ""
-    lines = [l for l in tb.splitlines() if l.strip().startswith("File ")]
-    if not lines:
-        return False
-    last = lines[-1]
-    return "/verif/" in last or "/sim/" in last and "/repo/" not in last
 
 
 # ==========================================================================
@@ -190,10 +179,6 @@ def check_c07(r, ex, stats):
     t0 = r.f_before[1]
     times = [t0] + [s.t_out for s in full]
     traj_finite = all(s.finite_out for s in full)
-    # T5 is about bookkeeping (dt = 0, stale memory), not about overflow of an unstable
-    # run: claim it only while the trajectory stays far from the overflow range
-    traj_moderate = all(max(float(np.max(np.abs(d))) for d in s.data_out) < 1e100 for s in full if s.finite_out) and \
-        max(float(np.max(np.abs(d))) for d in r.f0.data) < 1e100
     # the driver's documented default: stop at the last save time unless overridden
     if r.stop and "tottime" in r.stop:
         T = r.stop["tottime"]
